@@ -97,6 +97,7 @@ def grid_specs():
                                               nst(0), nst(20, 3), data(1, 304), data(0, 44)]},
         "retry": {"retry": True},
         "early": {"early": 2},
+        "early_with_other_frames": {"early": 2, "early_extra": 15},
         "split_ch": {"split_ch": 3},
         "split_ch_shuffled": {"split_ch": 3, "ch_shuffle": True},
         "split_server_flight": {"split_shs": 3, "hs_coalesce": False},
